@@ -65,7 +65,9 @@ func isNameValidator(f *ssa.Function) bool {
 	// and it can answer false
 	canFalse := false
 	for _, r := range returnsOf(f) {
-		if hasOrigin(r.Results[0], func(o string) bool { return o == "const:false" || strings.HasPrefix(o, "unop:") || strings.HasPrefix(o, "binop:") || strings.HasPrefix(o, "call:") }) {
+		if hasOrigin(r.Results[0], func(o string) bool {
+			return o == "const:false" || strings.HasPrefix(o, "unop:") || strings.HasPrefix(o, "binop:") || strings.HasPrefix(o, "call:")
+		}) {
 			canFalse = true
 		}
 	}
@@ -332,8 +334,12 @@ func c18JoinRoot(c *Ctx) {
 					why = fmt.Sprint(origins(l))
 					continue
 				}
-				if !joinArgsOK(jc, func(v ssa.Value) bool { return onlyOrigins(v, func(o string) bool { return o == "field:LocalFS.Root" }) },
-					func(v ssa.Value) bool { return onlyOrigins(v, func(o string) bool { return o == "field:"+nodeType+".Name" }) }) {
+				if !joinArgsOK(jc, func(v ssa.Value) bool {
+					return onlyOrigins(v, func(o string) bool { return o == "field:LocalFS.Root" })
+				},
+					func(v ssa.Value) bool {
+						return onlyOrigins(v, func(o string) bool { return o == "field:"+nodeType+".Name" })
+					}) {
 					okP = false
 					why = "filepath.Join of something else than (fs.Root, n.Name)"
 				}
